@@ -5,8 +5,6 @@ package mimetype
 import (
 	"bytes"
 	"fmt"
-	"os"
-	"path/filepath"
 	"runtime/debug"
 	"strings"
 	"testing"
@@ -92,10 +90,7 @@ func c01Check(c c01Case) vfResult {
 			return r
 		}
 		if c.File {
-			p := filepath.Join(vfScratchDir(), "c01.bin")
-			if err := os.WriteFile(p, x, 0o644); err != nil {
-				panic(err)
-			}
+			p := vfWriteFile("c01", x, vfHash(x))
 			mf, err := DetectFile(p)
 			if mf == nil || err != nil {
 				r.Err = fmt.Errorf("DetectFile returned (%v, %v)", mf, err)
@@ -150,13 +145,59 @@ func c01Gen(t *rapid.T) c01Case {
 // c01Structured builds headers for the detectors that read attacker-controlled lengths.
 func c01Structured(t *rapid.T) []byte {
 	u32 := func(label string) uint32 {
-		if rapid.Bool().Draw(t, label+"h") {
+		switch rapid.IntRange(0, 5).Draw(t, label+"h") {
+		case 0, 1:
 			return rapid.SampledFrom(vfHostile).Draw(t, label)
+		case 2: // header size + v wraps around to (almost) nothing
+			return -uint32(rapid.IntRange(1, 64).Draw(t, label+"neg"))
+		case 3:
+			return uint32(rapid.IntRange(0, 70).Draw(t, label+"tiny"))
 		}
 		return uint32(rapid.IntRange(0, 600).Draw(t, label+"s"))
 	}
+	be := func(v uint32) []byte { return []byte{byte(v >> 24), byte(v >> 16), byte(v >> 8), byte(v)} }
 	le := func(v uint32) []byte { return []byte{byte(v), byte(v >> 8), byte(v >> 16), byte(v >> 24)} }
-	switch rapid.IntRange(0, 4).Draw(t, "sk") {
+	switch rapid.IntRange(0, 5).Draw(t, "sk") {
+	case 5: // chunk lists (PNG, MP4 boxes, RIFF, IFF) whose declared lengths are hostile
+		var b []byte
+		n := rapid.IntRange(1, 5).Draw(t, "nchunks")
+		switch rapid.IntRange(0, 3).Draw(t, "ck") {
+		case 0:
+			b = append(b, "\x89PNG\r\n\x1a\n\x00\x00\x00\x0dIHDR\x00\x00\x00\x10\x00\x00\x00\x10\x08\x06\x00\x00\x00\x1f\xf3\xffa"...)
+			for i := 0; i < n; i++ {
+				b = append(b, be(u32("clen"))...)
+				b = append(b, rapid.SampledFrom([]string{"acTL", "IDAT", "IEND", "tEXt", "pHYs", "iCCP", "fcTL", "zzzz"}).Draw(t, "ctype")...)
+				b = append(b, rapid.SliceOfN(rapid.Byte(), 0, 24).Draw(t, "cdata")...)
+			}
+		case 1:
+			b = append(b, "\x00\x00\x00\x18ftyp"...)
+			b = append(b, rapid.SampledFrom([]string{"avif", "3gp4", "M4A ", "qt  ", "heic", "isom", "mj2s", "crx "}).Draw(t, "brand")...)
+			b = append(b, "\x00\x00\x02\x00isommp41"...)
+			for i := 0; i < n; i++ {
+				b = append(b, be(u32("boxlen"))...)
+				b = append(b, rapid.SampledFrom([]string{"moov", "mdat", "free", "meta", "uuid", "jp2h", "wide"}).Draw(t, "box")...)
+				b = append(b, rapid.SliceOfN(rapid.Byte(), 0, 24).Draw(t, "bdata")...)
+			}
+		case 2:
+			b = append(b, "RIFF"...)
+			b = append(b, le(u32("riffsize"))...)
+			b = append(b, rapid.SampledFrom([]string{"WEBP", "WAVE", "AVI ", "QLCM", "ACON"}).Draw(t, "form")...)
+			for i := 0; i < n; i++ {
+				b = append(b, rapid.SampledFrom([]string{"fmt ", "data", "LIST", "VP8 ", "VP8X", "anih", "JUNK"}).Draw(t, "rck")...)
+				b = append(b, le(u32("rlen"))...)
+				b = append(b, rapid.SliceOfN(rapid.Byte(), 0, 24).Draw(t, "rdata")...)
+			}
+		default:
+			b = append(b, "FORM"...)
+			b = append(b, be(u32("formsize"))...)
+			b = append(b, rapid.SampledFrom([]string{"AIFF", "AIFC", "DJVU", "DJVM", "ILBM"}).Draw(t, "iff")...)
+			for i := 0; i < n; i++ {
+				b = append(b, rapid.SampledFrom([]string{"COMM", "SSND", "INFO", "BMHD", "FVER"}).Draw(t, "ick")...)
+				b = append(b, be(u32("ilen"))...)
+				b = append(b, rapid.SliceOfN(rapid.Byte(), 0, 24).Draw(t, "idata")...)
+			}
+		}
+		return b
 	case 0: // zip local header with hostile compressed size, names, following headers
 		b := []byte("PK\x03\x04\x14\x00\x00\x00\x00\x00\x00\x00\x00\x00\x00\x00\x00\x00")
 		b = append(b, le(u32("csize"))...)
@@ -188,6 +229,26 @@ func c01Structured(t *rapid.T) []byte {
 		}
 		if n > 52 {
 			copy(b[48:], le(u32("secid")))
+		}
+		if n > 80 && rapid.Bool().Draw(t, "hdrfields") {
+			// minor/major version, byte order, sector shift, mini-sector shift, counts
+			u16 := func(label string) uint16 {
+				if rapid.Bool().Draw(t, label+"std") {
+					return rapid.SampledFrom([]uint16{9, 12, 6, 3, 4, 0x3e, 0xfffe}).Draw(t, label)
+				}
+				return uint16(u32(label + "v"))
+			}
+			for _, off := range []int{24, 26, 28, 30, 32} {
+				b[off], b[off+1] = byte(u16(fmt.Sprint("f", off))), 0
+				if rapid.IntRange(0, 7).Draw(t, "hi") == 0 {
+					b[off+1] = rapid.Byte().Draw(t, "hib")
+				}
+			}
+			for _, off := range []int{40, 44, 56, 60, 64, 68, 72} {
+				if rapid.IntRange(0, 3).Draw(t, "cnt") == 0 {
+					copy(b[off:], le(u32(fmt.Sprint("c", off))))
+				}
+			}
 		}
 		return b
 	case 3: // tar-ish block
